@@ -858,7 +858,7 @@ fn fresh_points(rng: &mut Rng, x: &M64, cen: &M64, m: usize) -> Array2<f64> {
 // workload
 // ------------------------------------------------------------------------------------------------
 
-const KINDS: [&str; 11] = [
+const KINDS: [&str; 12] = [
     "blobs-separated",
     "overlapping",
     "duplicates",
@@ -870,6 +870,7 @@ const KINDS: [&str; 11] = [
     "uniform",
     "box-beside-origin",
     "outlier-beside-origin",
+    "remote-outliers-and-a-constant-feature",
 ];
 
 fn gen_data(rng: &mut Rng, kind: usize, n: usize, p: usize, k: usize, f32_: bool) -> Array2<f64> {
@@ -908,6 +909,25 @@ fn gen_data(rng: &mut Rng, kind: usize, n: usize, p: usize, k: usize, f32_: bool
             Array2::from_shape_fn((n, p), |(_, j)| row[j])
         }
         8 => gen::uniform_matrix(rng, n, p, -5.0, 5.0),
+        11 => {
+            // a run of points near the origin along the first feature, a few increasingly remote
+            // outliers that dominate any sampling by cost (a sampling initialiser then draws very
+            // few candidates), and a constant non-zero last feature: every centroid has to carry
+            // exactly that constant
+            let cval = *gen::pick(rng, &[5.0, -3.0, 0.5]);
+            let nout = (n / 5).clamp(1, 8);
+            Array2::from_shape_fn((n, p), |(i, j)| {
+                if j == p - 1 && p >= 2 {
+                    cval
+                } else if i < n - nout {
+                    (i + 1) as f64 * if j == 0 { 1.0 } else { 0.25 }
+                } else {
+                    let e = 2 * (i - (n - nout) + 1) as i32;
+                    // far from the overflow of cubes in the element type
+                    if f32_ { 10f64.powi(e.min(6)) } else { 10f64.powi(e.min(12)) }
+                }
+            })
+        }
         10 => {
             // one or two rows just beside the origin, all others in a distant blob on the same
             // side: a zero row that is (wrongly) treated as a candidate centre is the nearest one
@@ -1369,6 +1389,7 @@ fn trajectory_case<F: Fl, D: Dk<F>>(c: &mut Case, mt: Metric, pl: &TrajPlan, dis
     let mut moved = 0usize;
     let mut unresolved = 0usize;
     let mut stepdist: Vec<f64> = vec![];
+    let mut stepdist_l2: Vec<f64> = vec![];
     let mut finding: Option<Outcome> = None;
     for m in 1..=pl.steps {
         let fm = fit_or_return!(xv, &dist, &mk(m as u64, F::min_pos(), 1), format!("fit budget {m}"));
@@ -1442,6 +1463,7 @@ fn trajectory_case<F: Fl, D: Dk<F>>(c: &mut Case, mt: Metric, pl: &TrajPlan, dis
         costs.push(cost_cur);
         let d = mt.dist(&prev.v, &fm.c.v);
         stepdist.push(d);
+        stepdist_l2.push(Metric::L2.dist(&prev.v, &fm.c.v));
         if d > 0.0 {
             moved += 1;
         }
@@ -1503,6 +1525,30 @@ fn trajectory_case<F: Fl, D: Dk<F>>(c: &mut Case, mt: Metric, pl: &TrajPlan, dis
                     c.count("stopped-by-tolerance");
                 } else {
                     c.count("stopped-by-budget");
+                }
+                // which iterate: the first one reached by a step shorter than the tolerance (in the
+                // chosen metric, or - the documentation's wording - in the euclidean one), else the
+                // last one of the budget. Steps within rounding of the tolerance decide nothing.
+                let stop_at = |lens: &[f64]| -> Option<usize> {
+                    for (j, l) in lens.iter().enumerate().take(b) {
+                        if (l - tol.d()).abs() <= 64.0 * F::EPS * l.max(tol.d()) * (x.p * pl.k) as f64 {
+                            return None;
+                        }
+                        if *l < tol.d() {
+                            return Some(j);
+                        }
+                    }
+                    Some(b - 1)
+                };
+                let want_metric = stop_at(&stepdist);
+                let want_euclid = stop_at(&stepdist_l2);
+                if let (Some(a), Some(e)) = (want_metric, want_euclid) {
+                    // (iterates that coincide bit for bit are the same answer)
+                    let same = |i: usize| i < iter.len() && iter[i].c == fm.c && iter[i].counts == fm.counts && iter[i].inertia.to_bits() == fm.inertia.to_bits();
+                    ensure!(same(a) || same(e), "C09/tolerance/stopped-at-the-wrong-iterate",
+                        {"tolerance": tol.d(), "budget": b, "returned_iterate": jj + 1, "expected_iterate_metric_reading": a + 1,
+                         "expected_iterate_euclidean_reading": e + 1, "step_lengths": stepdist, "euclidean_step_lengths": stepdist_l2});
+                    c.count("tolerance-stop-iterate-checked");
                 }
             }
         }
@@ -2013,6 +2059,38 @@ pub fn run(ctx: &Ctx) {
         c.note("max_iter", json!(pl.max_iter));
         c.note("layouts", json!([pl.layout, pl.qlayout]));
         c.note("para_single_thread", json!(pl.single_thread));
+        dispatch!(f32_, mt, end_state_case(c, mt, &pl))
+    });
+
+    // ---- the sampling initialiser when its rounds draw far fewer candidates than it has room for
+    ctx.family("para-sparse-candidates", tier.pick(240, 1500), |c| {
+        let f32_ = c.idx % 5 == 4;
+        let mt = if c.idx % 7 == 6 { Metric::L1 } else { Metric::L2 };
+        let kind = 11;
+        let n = c.rng.gen_range(20..46);
+        let p = 2;
+        let k = 2 + (c.idx % 2) as usize;
+        let data = gen_data(&mut c.rng, kind, n, p, k, f32_);
+        let pl = EndPlan {
+            kind,
+            n,
+            p,
+            k,
+            init: InitKind::Para,
+            n_runs: 1,
+            tol_rel: 1e-6,
+            max_iter: [1u64, 2, 30][(c.idx / 2 % 3) as usize],
+            layout: 0,
+            qlayout: 0,
+            seed: c.idx,
+            single_thread: c.idx % 4 == 0,
+            data,
+        };
+        c.note("float", json!(if f32_ { "f32" } else { "f64" }));
+        c.note("metric", json!(mt.name()));
+        c.note("shape", json!([n, p, k]));
+        c.note("max_iter", json!(pl.max_iter));
+        c.note("seed", json!(pl.seed));
         dispatch!(f32_, mt, end_state_case(c, mt, &pl))
     });
 
